@@ -295,7 +295,7 @@ def a_frame_host_bounded(prog):
     nstr = 0
     for d in decoders:
         for c in d.calls:
-            if not re.search(r"string::String::(from_utf8|from_utf8_lossy)$|str::from_utf8$", c.path or ""):
+            if not re.search(r"string::String::(from_utf8|from_utf8_lossy)$|str::(converts::)?from_utf8$", c.path or ""):
                 continue
             nstr += 1
             tr = d.trace(op_base(c.args[0]), through_calls=[r"Deref::deref$", r"to_vec$", r"AsRef", r"Bytes::split_to$|BytesMut::split_to$"])
